@@ -54,6 +54,13 @@ CHECKS = {
                 note="What WHITESPACE/COMMENT match is the skip node's behaviour. Atomicity constants emitted by the generator are decided by the "
                      "type-level rules (R07-CONST/SKIPTY/SITES) once registered in this check's rule list (see evidence rules[]).",
                 ref="§4 C07"),
+    "C08": dict(level="other", tech="HIR data-flow over Input impls in both build profiles (slice bounds, cursor field identity, uses of the parent string, conversion fields)",
+                text="For Position/SubInput1/SubInput2 in debug and release builds: get() slices input from the cursor field up to exactly end() (both "
+                     "cfg arms the same range), byte_offset()/cursor() denote the same field, at_start/at_end compare with start()/end() and SOI/EOI "
+                     "use them; inside Input's methods the parent string only flows to position construction, debug assertions or a slice bounded "
+                     "above by end() (this rule found and now guards the fixed skip_until defect); AsInput conversions copy the right fields.",
+                note="Necessary structural conditions; equality of whole parse results between the two ways of parsing is not decided.",
+                ref="§4 C08; §5.1"),
     "C12": dict(level="translation_validation", tech="sibling normal-form equality of typed HIR (repo copy vs pest source)",
                 text="Translation validation: Position::{new,line_col,line_of,find_line_start,find_line_end,at_start,at_end,...} "
                      "are shown to be the same programs as pest's (typed-HIR normal forms equal), hence equal results for every "
